@@ -59,11 +59,20 @@ CFG = {
 
 # (technique, level text, design ref)
 MANIFEST = (
-    "Rocq proof: b64/percent codecs round-trip and stay inside their alphabets for all strings; JSON writer output re-reads to the same data; slug output shape; correspondence run ties the models to tera-contrib",
-    "Theorems (Props/C20.v) are stated over Gallina ports of the tera-contrib filters and of the crate routines they call, for every "
-    "string / every value; the ports are tied to the Rust code by running both on the same generated cases inside coqc (all valid "
-    "UTF-8 strings of at most two bytes exhaustively, boundary pools, seeded random Unicode strings and nested values), and the real "
-    "filters are additionally checked against independent reference decoders on every case. A universal theorem is the right level "
-    "because the property quantifies over all strings and values; the crates themselves are modelled, not verified.",
+    "Rocq proof: base64 (4 engines) and percent-encoding round-trip and stay inside their alphabets for all strings, the decoder accepts "
+    "only canonical encodings; the JSON writer's output (compact and pretty) is read back by an RFC 8259 reference reader as the same "
+    "data for all value trees (float text an oracle under a checked hypothesis); slug output shape for any transliteration; "
+    "correspondence run + independent reference decoders tie the models to tera-contrib",
+    "Theorems (Props/C20.v, all closed under the global context) are stated over Gallina ports of the tera-contrib filters and of the "
+    "crate routines they call (base64 GeneralPurpose engines incl. decode_suffix, percent_encode over the AsciiSet chains, serde_json's "
+    "compact/pretty serializer over Value's Serialize impl, slug::_slugify), for every string / every value tree: b64 round trip at "
+    "filter and byte level, alphabet + padding shape, decoder soundness (accepted text = canonical unpadded encoding + '='*), foreign "
+    "character / length 1 mod 4 => error, percent round trip + exact unescaped sets read off the generated tables by a 128-byte sweep, "
+    "JSON read(write v) = canon v with a fuelled reference reader, object lookup faithful iff stringified keys distinct (refuted "
+    "otherwise: known finding), slug alphabet/hyphen law by a fold invariant, UTF-8 round trip. The ports are tied to the Rust code by "
+    "running both on the same generated cases inside coqc (all valid UTF-8 strings of at most two bytes exhaustively in the thorough "
+    "tier, boundary pools, seeded random Unicode strings up to 2000 chars and nested values of every kind) and the real filters are "
+    "additionally checked against independent Rust reference decoders on every case. A universal theorem is the right level because the "
+    "property quantifies over all strings and values; the third-party crates are modelled, not verified.",
     "§6 C20",
 )
